@@ -61,6 +61,14 @@ def comp : Component where
           | _, _ => "start ")
         | none => "bad-thread "
       ({ st with s := s' }, line4 (sysStr s') "-" "*" tags)
+    | ["arb"] =>
+      -- the read loop is inside getConn (holding connLock), past the admission check, about to count the connection
+      let s' := stepOp st.backlog st.s .arriveBegin
+      ({ st with s := s' }, line4 (sysStr s') "-" "*" (if s'.arrPending then "arrival-begins " else "arrival-refused "))
+    | ["are"] =>
+      let s' := stepOp st.backlog st.s .arriveEnd
+      ({ st with s := s' }, line4 (sysStr s') "-" "*" ("arrival-ends " ++ (if s'.nextConn > st.s.nextConn then "arrival-creates " else "arrival-discarded ") ++
+        (if st.s.arrPending ∧ !st.s.accepting then "arrival-after-close-began " else "")))
     | ["arr"] =>
       let s' := stepOp st.backlog st.s .arrive
       ({ st with s := s' }, line4 (sysStr s') "-" "*" (if s'.nextConn > st.s.nextConn then "arrival-creates " else "arrival-discarded "))
